@@ -69,7 +69,7 @@ func TestC04Seq(t *testing.T) {
 		})
 		acts := map[string]func(*rapid.T){}
 		for _, k := range []string{"create", "create2", "mkdir", "write", "write2", "symlink", "setattr", "setattr2", "read",
-			"remove", "remove2", "rmdir", "rename", "rename2", "restart", "lookup"} {
+			"remove", "remove2", "rmdir", "rename", "rename2", "movedir", "restart", "lookup"} {
 			acts[k] = base[k]
 		}
 		acts["mkdir2"], acts["rmdir2"] = base["mkdir"], base["rmdir"]
@@ -446,9 +446,9 @@ func TestC04BigDisk(t *testing.T) {
 					if n > 400 {
 						n = 400
 					}
-					r := api.NFSPROC3_READ(nt.READ3args{File: f.fh, Offset: nt.Offset3(off * BlockSize), Count: nt.Count3(n * BlockSize)})
-					if r.Status != nt.NFS3_OK || !bytes.Equal(r.Resok.Data, want[off*BlockSize:(off+n)*BlockSize]) {
-						fail("%s: file %s no longer holds what was written to it (READ at block %d: status %d)", when, f.name, off, r.Status)
+					got, st := readFull(api, f.fh, off*BlockSize, n*BlockSize)
+					if st != nt.NFS3_OK || !bytes.Equal(got, want[off*BlockSize:(off+n)*BlockSize]) {
+						fail("%s: file %s no longer holds what was written to it (READ at block %d: status %d)", when, f.name, off, st)
 					}
 				}
 			}
@@ -572,10 +572,11 @@ func TestC04Enum(t *testing.T) {
 		cc := concCase{Unstable: true, LowChildren: true, Progs: progs, Pause: pause}
 		detail := cc.describe()
 		detail["history"], detail["enum_index"] = describeHistory(r.Ops), i
-		if r.Slow || r.Hung || r.Panic != "" {
+		if r.Slow || (r.Hung && !r.HungInFinal) || r.Panic != "" {
 			St.Class("run_not_judged")
 			continue // C06 / C11 report these; the server may be wedged, leave it
 		}
+		// (when only the sequential look at the final state got stuck, both clients have returned: the disk is judged)
 		var ferr error
 		o := Guard(10*time.Second, func() {
 			w.S.Quiesce()
@@ -590,7 +591,9 @@ func TestC04Enum(t *testing.T) {
 			St.Violation("C04", msg, detail)
 			t.Fatalf("C04: %s\n%v", msg, detail)
 		}
-		w.S.Stop()
+		if !r.HungInFinal {
+			w.S.Stop()
+		}
 		run++
 		St.Eval(1)
 		if r.Paused {
